@@ -315,6 +315,97 @@ def run_history(ctx, ename, hist, late):
     return ok, key
 
 
+# --------------------------------------------------------------- re-entrant
+def reentrant_cells(ctx):
+    """A change handler re-assigns the observed link while the assignment
+    that called it is still being dispatched. When the outer assignment
+    returns, exactly the objects reachable in the final graph are hooked."""
+    import itertools
+    for ename in ("child.value", "child:value", "child.child.value"):
+        for writer in ("self", "before", "after"):
+            if writer == "self" and ":" in ename.split("child")[1][:1]:
+                continue        # a ':' link does not call the handler
+            for c0, c1, c2 in itertools.product((None, 1, 2), (1, 2, 0),
+                                                (None, 1, 2)):
+                if c1 == c0 or c2 == c1:
+                    continue
+                case = {"expr": ename, "reentrant": writer,
+                        "history": [["child", 0, c0], ["child", 0, c1],
+                                    ["handler-assigns", 0, c2]]}
+                ctx.case(case)
+                ctx.ev()
+                w = World(ename)
+                root = w.pool[0]
+                if c0 is not None:
+                    root.child = w.pool[c0]
+                new1 = w.pool[c1]
+                new2 = None if c2 is None else w.pool[c2]
+                fired = []
+
+                def rewrite(*args):
+                    if root.__dict__.get("child") is new1 and not fired:
+                        fired.append(1)
+                        root.child = new2
+                if writer == "before":
+                    root.on_trait_change(rewrite, "child")
+                if writer == "self":
+                    log = w.log
+
+                    def both(ev):
+                        log(ev)
+                        if ev.name == "child":
+                            rewrite()
+                    w.log = both
+                    both.calls = log.calls
+                w.register()
+                if writer == "after":
+                    root.on_trait_change(rewrite, "child")
+                ctx.tr()
+                try:
+                    root.child = new1
+                except Exception as exc:
+                    ctx.violation("C08:reentrant-raises:%s:%s" % (ename,
+                                                                  writer),
+                                  "raised %r" % (exc,), **case)
+                    continue
+                if not fired or root.__dict__.get("child") is not new2:
+                    continue
+                w.had_cycle = False
+                if writer == "self":
+                    w.log = log
+                    # the registered callable is `both`; it logs into log
+                ok = True
+                objs = G.all_objects(w.pool)
+                W = w.watch()
+                for o in objs:
+                    exp = 1 if ("trait", id(o), "value") in W else 0
+                    log_calls = w.log.calls
+                    log_calls.clear()
+                    o.value += 1
+                    got = len([c for c in log_calls if c[2] == "value"])
+                    ctx.tr()
+                    if got != exp:
+                        ok = False
+                        ctx.violation(
+                            "C08:reentrant:%s:%s" % (ename, writer),
+                            "a %s re-assigned root.child to %r while "
+                            "root.child = %r (was %r) was being dispatched; "
+                            "afterwards changing %r.value gives %d call(s), "
+                            "expected %d (%s)" % (
+                                {"self": "the observe handler itself",
+                                 "before": "handler registered before the "
+                                           "observer",
+                                 "after": "handler registered after the "
+                                          "observer"}[writer],
+                                new2, new1,
+                                None if c0 is None else w.pool[c0], o, got,
+                                exp, "reachable" if exp else "not reachable"),
+                            **case)
+                        break
+                if ok:
+                    ctx.outcome("probe-called")
+
+
 #: expressions with large menus: events on the root only, one level less
 ROOT_ONLY = {"+coll.items.value"}
 
@@ -326,7 +417,7 @@ def menu(ename):
 
 
 def shards(tier):
-    out = []
+    out = [{"expr": "__reentrant__"}]
     for ename in EXPRS:
         evs = menu(ename)
         n = 8 if len(evs) > 40 else (4 if len(evs) > 20 else 2)
@@ -337,6 +428,10 @@ def shards(tier):
 
 def run_shard(ctx, shard, tier):
     ename = shard["expr"]
+    if ename == "__reentrant__":
+        reentrant_cells(ctx)
+        ctx.depth_completed = 3
+        return
     evs = menu(ename)
     depth = 4 if tier == "quick" else 5
     late_depth = 3 if tier == "quick" else 4
@@ -380,6 +475,14 @@ def replay(rec):
     from mc.ctx import Ctx
     ctx = Ctx("C08", None, "quick", 0)
     c = rec.get("case") or rec
+    if c.get("reentrant"):
+        reentrant_cells(ctx)
+        want = rec.get("sig")
+        hit = [v for v in ctx.violations.values()
+               if want is None or v["sig"] == want]
+        for v in hit:
+            print("  violation:", v["sig"], v["msg"])
+        return not hit
     hist = [tuple(e) for e in c["history"]]
     ok, key = run_history(ctx, c["expr"], hist, c.get("late", False))
     print("expr", c["expr"], "history", hist, "late", c.get("late"))
